@@ -1900,8 +1900,7 @@ def ltu(x, y):
             return op(OP_LTU, x, y)
     except AttributeError:
         pass
-    x.sf = y.sf = True
-    return x < y
+    return cst(x.v < y.v)
 
 
 def geu(x, y):
@@ -1911,8 +1910,7 @@ def geu(x, y):
             return op(OP_GEU, x, y)
     except AttributeError:
         pass
-    x.sf = y.sf = True
-    return x >= y
+    return cst(x.v >= y.v)
 
 
 OP_ARITH = {
